@@ -245,3 +245,40 @@ func LoadReplay(into any) (bool, error) {
 	}
 	return true, json.Unmarshal(b, into)
 }
+
+// Par runs f(0..n-1) in n goroutines at once and returns the first non-empty message (a panic in a goroutine becomes
+// its message).  Used by the "independent instances in parallel" parts, which are built with the race detector.
+func Par(n int, f func(i int) string) string {
+	msgs := make([]string, n)
+	var wg sync.WaitGroup
+	start := make(chan struct{})
+	for i := 0; i < n; i++ {
+		wg.Add(1)
+		go func(i int) {
+			defer wg.Done()
+			defer func() {
+				if r := recover(); r != nil {
+					msgs[i] = fmt.Sprintf("goroutine %d of %d (each works on instances of its own): panic: %v", i, n, r)
+				}
+			}()
+			<-start
+			msgs[i] = f(i)
+		}(i)
+	}
+	close(start)
+	wg.Wait()
+	for i, m := range msgs {
+		if m != "" {
+			return fmt.Sprintf("with %d goroutines each working on instances of its own, goroutine %d: %s", n, i, m)
+		}
+	}
+	return ""
+}
+
+// Prop is the property the driver runs this process for (VERIF_PROP); packages shared by several properties use it.
+func Prop() string {
+	if p := os.Getenv("VERIF_PROP"); p != "" {
+		return p
+	}
+	return "C01"
+}
